@@ -1,7 +1,7 @@
 """Rules about the direction (direct / inverse) of features and statements (C14, also C04/C05/C11)."""
 import ast
 import re
-from ..core import walk_own, norm, is_self_attr, AnalysisError
+from ..core import walk_own, norm, is_self_attr, AnalysisError, lit, is_lit, NOLIT
 from ..report import Ob
 
 SO = [(r"\b_S\b", "_ROLE"), (r"\b_O\b", "_ROLE"), (r"subject", "ROLE"), (r"object", "ROLE"), (r"subj", "ROLE"), (r"obj", "ROLE")]
@@ -58,7 +58,7 @@ def statement_direction_agreement(ctx, clause):
         if m and len(set(m)) == 1:
             n += 1
             want = m[0] == "INVERSE"
-            got = inv.value if isinstance(inv, ast.Constant) else (False if inv is None else None)
+            got = lit(inv) if inv is not None and lit(inv) is not NOLIT else (False if inv is None else None)
             ok = got is want
             obs.append(Ob(clause, "R-PLUMB", "R-PLUMB|direction-of-profile-half|%s" % f.short, f.loc(cs.node), ok,
                           "statements built from the %s half are flagged is_inverse=%s" % (m[0].lower(), want) if ok else
